@@ -546,7 +546,9 @@ class ExtendedKalmanFilter:
         result = np.zeros((sensor_size, self.state_size))
         for row in range(sensor_size):
             for col in range(self.state_size):
-                result[row, col] = computed_jacobian[row * sensor_size + col]
+                result[row, col] = computed_jacobian[
+                    row * (self.state_size + self.calibration_size) + col
+                ]
         return result
 
     def process_model(self, dt, state, covariance, control=None):
